@@ -1134,7 +1134,7 @@ def main(tier, seed):
                         "worker_batch_joins", "profile_loads",
                         "profile_evictions_while_pending",
                         "profile_simultaneous_completions"), chunk=1,
-        budget_s=280 if tier == "quick" else 3000, confirm_job=confirm_job)
+        budget_s=280 if tier == "quick" else 900, confirm_job=confirm_job)
 
 
 def replay(path):
